@@ -29,11 +29,16 @@ def _second_reading(prop, tier, seed, root, mod, ctx):
         mod.run(ctx2)
         if ctx2.thorough and hasattr(mod, "run_thorough"):
             mod.run_thorough(ctx2)
-    except AnalysisError:
+    except AnalysisError as e:
+        ctx.result.note(f"second reading (helper-flattened program) incomplete as well: {str(e)[:300]}")
         return ctx
-    except Exception:
+    except Exception as e:
+        ctx.result.note(f"second reading (helper-flattened program) failed: {type(e).__name__}: {str(e)[:200]}")
+        if os.environ.get("KVERIF_DEBUG") == "1":
+            traceback.print_exc(file=sys.stderr)
         return ctx
     if ctx2.result.errors:
+        ctx.result.note("second reading (helper-flattened program) incomplete as well: " + " | ".join(e[:300] for e in ctx2.result.errors[:3]))
         return ctx
     ctx2.result.note("first reading incomplete (" + "; ".join(e[:160] for e in ctx.result.errors[:3]) + "); decided on the helper-flattened program: "
                      + "; ".join(f"{f} <- {', '.join(h)}" for f, h in sorted(ctx2.flattened.items())))
